@@ -2,8 +2,8 @@ package main
 
 import (
 	"flag"
-	"go/types"
 	"fmt"
+	"go/types"
 	"os"
 	"path/filepath"
 	"runtime/debug"
@@ -73,7 +73,7 @@ func main() {
 		}
 		main.collect = nil
 		main.wsCache, main.callers = nil, nil
-		for round := 0; round < 2; round++ {
+		for round := 0; round < 3; round++ {
 			p2, notes := Normalise(main, LoadOpts{Repo: abs, Tags: defaultTags}, anchors)
 			normNotes = append(normNotes, notes...)
 			if p2 == main {
